@@ -856,26 +856,35 @@ def _std_prefix(uri):
 def merged_with_xml_base(main: bytes, files: dict) -> bytes:
     """The document the finding says the lxml handler effectively reads with process_xinclude=True: every xi:include
     element replaced by the root element of the named part (its tail kept), and `xml:base="<href>"` added to that root
-    when the part lies in another directory than the including document."""
+    when the part lies in another directory than the including document.  Put together as text (every document is
+    printed by itself, with all its declarations, and pasted in place of the include element) so that nothing is
+    cleaned up on the way."""
     from lxml import etree
 
     inc = "{%s}include" % XI_NS
+    counter = [0]
 
-    def expand(root, here):
+    def text_of(data, here, xml_base):
+        root = etree.fromstring(data)
+        if xml_base is not None:
+            root.set("{http://www.w3.org/XML/1998/namespace}base", xml_base)
+        subs = {}
         for el in list(root.iter(inc)):
             href = el.get("href")
-            name = (here + href) if here else href
-            part = etree.fromstring(files[name])
+            name = here + href
             sub_dir = name.rsplit("/", 1)[0] + "/" if "/" in name else ""
-            expand(part, sub_dir)
-            if "/" in href:
-                part.set("{http://www.w3.org/XML/1998/namespace}base", href)
-            part.tail = el.tail
-            el.getparent().replace(el, part)
+            counter[0] += 1
+            mark = "c09-include-%d" % counter[0]
+            subs[mark] = text_of(files[name], sub_dir, href if "/" in href else None)
+            ph = etree.Element(mark)
+            ph.tail = el.tail
+            el.getparent().replace(el, ph)
+        out = etree.tostring(root, encoding="unicode")
+        for mark, sub in subs.items():
+            out = out.replace("<%s/>" % mark, sub)
+        return out
 
-    root = etree.fromstring(main)
-    expand(root, "")
-    return etree.tostring(root, encoding="utf-8", xml_declaration=True)
+    return text_of(main, "", None).encode("utf-8")
 
 
 def prefixes_forgotten(main: bytes, files: dict) -> bytes:
